@@ -217,7 +217,7 @@ fn run_channel(c: &mut Ctx, m: &'static Merchant, name: &str, cust0: u64, merch0
 }
 
 pub fn run(c: &mut Ctx) {
-    c.note("rule", json!("channels with initial balances from the lattice {0,1,2,2^31,2^32,2^62,2^63-2,2^63-1}^2 and random pairs; per channel a sequence of amounts drawn from boundary values relative to the current balances (0, +-1, +-balance, +-(balance+1), +-(2^63-1), exact fill-ups to 2^63-1 and one beyond, random); every step of establish and pay is executed and every stage's balances and closing message are compared with the i128 ledger. Distinct = distinct (balances-before, amount) pairs executed or refused."));
+    c.note("rule", json!("channels with initial balances from the lattice {0,1,2,2^31,2^32,2^62,2^63-2,2^63-1}^2 and random pairs; per channel a sequence of amounts drawn from boundary values relative to the current balances (0, +-1, +-balance, +-(balance+1), +-(2^63-1), exact fill-ups to 2^63-1 and one beyond, random); every step of establish and pay is executed and every stage's balances and closing message are compared with the i128 ledger. Distinct = distinct (balances-before, amount) pairs executed or refused. Added later: every stage names the channel it was opened for (accessor against the session's id)."));
     let lat = initial_lattice();
     let mut pairs: Vec<(u64, u64)> = vec![];
     for &a in &lat {
